@@ -110,6 +110,14 @@ class MayThrow:
                     return x.get("id")
             return None
         negative = set()
+        flag_of = {}
+
+        def flag_test(c):
+            from zw import unwrap
+            c = unwrap(c)
+            if isinstance(c, dict) and c.get("k") == "ref" and c.get("id") in flag_of:
+                return flag_of[c["id"]]
+            return None
 
         def rec(n, guarded):
             if isinstance(n, list):
@@ -121,8 +129,13 @@ class MayThrow:
             k = n.get("k")
             if k == "lambda":
                 return     # the body runs when the closure is called
-            if k in ("cond", "if") and neg_test(n.get("c")) is not None:
-                vid = neg_test(n["c"])
+            if k == "decl":
+                # `bool const negative = x < 0;` : the flag stands for the test
+                for v in n.get("vars", []):
+                    if v.get("init") is not None and neg_test(v["init"]) is not None and "const" in v.get("t", ""):
+                        flag_of[v["id"]] = neg_test(v["init"])
+            if k in ("cond", "if") and (neg_test(n.get("c")) is not None or flag_test(n.get("c")) is not None):
+                vid = neg_test(n["c"]) if neg_test(n["c"]) is not None else flag_test(n["c"])
                 rec(n["c"], guarded)
                 fresh = vid not in negative
                 negative.add(vid)
